@@ -137,3 +137,11 @@ Example C06_aborted_token_then_setup :
   recv_cycles (run (c6_step true true) c6_init (sweep_abort_then_setup 0 0)) = [27%nat] /\
   c6_env (sweep_abort_then_setup 0 0) = true.
 Proof. vm_compute. auto. Qed.
+(* a data stage consisting of the bare DATA0 PID (x = 3: after reset; 19: after a valid transaction) is not a request:
+   the deserializer may signal a packet (stale CRC registers), but of length 14, never 8 *)
+Example C06_runt_data_stage_not_reported :
+  recv_cycles (run (c6_step true true) c6_init (sweep_setup_runt 0 3)) = [] /\
+  ack_cycles (run (c6_step true true) c6_init (sweep_setup_runt 0 3)) = [] /\
+  recv_cycles (run (c6_step true true) c6_init (sweep_setup_runt 0 19)) = [21%nat] /\
+  ack_cycles (run (c6_step true true) c6_init (sweep_setup_runt 1 19)) = [31%nat].
+Proof. vm_compute. auto. Qed.
